@@ -113,6 +113,25 @@ T = {
     "C20-b": ("C20", "C20.R1", "before",
               "try_upgradable_read failing because a writer holds (or is queued for) the lock while the upgradable slot is free: the slot stays taken, no upgradable reader is ever admitted again",
               "cargo test --offline -p shuttle-parking_lot-impl --test seed_demo"),
+    "C01-b": ("C01", "C01.R2|value-comes-from-a-draw", "after (C14.R1 caught the new thread-local before)",
+              "a body with 32-bit shuttle::rand draws, an execution ending after an odd number of them, and a later execution on the same OS thread: it is served the left-over half word "
+              "without a recorded draw; its schedule does not replay and the nondeterminism checker rejects a controlled body",
+              "cargo test --offline -p shuttle --test seed_demo"),
+    "C09-b": ("C09", "C09.R2|stops-when-exhausted", "before",
+              "DFS with MaxSteps::ContinueAfter(0): no decision is ever recorded, `levels` stays empty, the exhaustion test never fires — the single empty schedule is repeated forever / max_iterations times",
+              "cargo test --offline -p shuttle --test seed_demo"),
+    "C10-b": ("C10", "C10.R1", "before",
+              "URW scheduler, a body with three generations of tasks, two scheduler instances built from the same seed: the parent/child edges are folded in HashMap order, weights differ, executions diverge from iteration 2",
+              "cargo test --offline -p shuttle --test seed_demo"),
+    "C11-b": ("C11", "C11.R2|new-task-can-be-lowest", "after",
+              "a task id >= 16 first seen in a PCT-driven iteration (>= 2) and a bug that needs the newly created task to run last: probability 0 instead of >= 1/n",
+              "cargo test --offline -p shuttle --test seed_demo"),
+    "C13-b": ("C13", "C13.R1|bound-consulted-by-every-step", "after",
+              "an execution that has used exactly n steps when it finishes or deadlocks: FailAfter(n) passes / reports a deadlock, ContinueAfter(n) fails the run with a deadlock instead of abandoning silently",
+              "cargo test --offline -p shuttle --test seed_demo"),
+    "C16-b": ("C16", "C16.R1|total", "before",
+              "a well-formed header declaring a step count n with n * (1 + task_id_bits) >= 2^64 and a short payload: multiplication overflow / out-of-bounds index inside the decoder",
+              "cargo test --offline -p shuttle-engine --test seed_demo"),
     "C17-a": ("C17", "C17.R2|wake-sets-woken", "before",
               "a waker invoked (or abort called) while the task is Blocked inside its poll on a blocking primitive (mpsc recv, Condvar, Barrier, join, park): the wake is forgotten and the task sleeps forever",
               "cd demo && cargo test --offline"),
